@@ -17,6 +17,12 @@ func main() {
 	os.Setenv("PATH", "/opt/veriftools/go1.26.8/bin:"+os.Getenv("PATH"))
 	StartWorkers(16)
 	defer StopWorkers()
+	if len(os.Args) > 1 && os.Args[1] == "check" {
+		code := cmdCheck(os.Args[2:])
+		StopWorkers()
+		cleanupScratch()
+		os.Exit(code)
+	}
 	repo := flag.String("repo", "/repo", "repository root")
 	fn := flag.String("func", "", "only this function key (debug)")
 	pkgName := flag.String("pkg", "dbft", "package name")
@@ -71,6 +77,12 @@ func main() {
 	bad := 0
 	for _, o := range all {
 		status := o.Verdict.String()
+		if o.Kind == "vacuity" {
+			if o.Verdict == VUnsat {
+				fmt.Println("VACUOUS PRECONDITION:", o.Name)
+			}
+			continue
+		}
 		if o.Verdict != VUnsat {
 			bad++
 		}
